@@ -34,6 +34,7 @@ type Explorer struct {
 	EnvKinds     map[string]bool // enabled environment choice kinds
 	Racy         map[string]bool
 	RaceDetect   bool
+	FineLoops    bool // loop iterations of instrumented code are scheduling points
 	MaxExec      int64 // cap on executions (0 = none)
 	MaxSteps     int
 	// Owned decides, for a node at ShardDepth deviations, whether this worker
@@ -76,7 +77,7 @@ func (x *Explorer) Explore() {
 
 func (x *Explorer) runOnce(choices []int) (*vrt.Result, Verdict) {
 	run := x.New()
-	opt := vrt.Options{Choices: choices, Racy: x.Racy, RaceDetect: x.RaceDetect, EnvDeviations: x.EnvKinds, MaxSteps: x.MaxSteps}
+	opt := vrt.Options{Choices: choices, Racy: x.Racy, RaceDetect: x.RaceDetect, FineLoops: x.FineLoops, EnvDeviations: x.EnvKinds, MaxSteps: x.MaxSteps}
 	res := vrt.Run(opt, run.Body, run.AtQuiet)
 	var v Verdict
 	if res.Deadline {
